@@ -64,7 +64,7 @@ pub fn structured(seed: u64, count: usize, max_bits: u32) -> Vec<usize> {
     let mut v = Vec::new();
     let primes: Vec<u64> = (2..2000u64).filter(|&p| is_prime_u64(p)).collect();
     while v.len() < count {
-        let kind = rng.below(6);
+        let kind = rng.below(8);
         let lim = 1u64 << max_bits;
         let n = match kind {
             0 => {
@@ -98,6 +98,22 @@ pub fn structured(seed: u64, count: usize, max_bits: u32) -> Vec<usize> {
                     c += 1;
                 }
                 c
+            }
+            5 | 6 => {
+                // a large prime p with p - 1 smooth over {2,3,5,7,11}: planned as Rader's algorithm by every planner
+                let lo = (lim / 8).max(64);
+                let mut found = 0u64;
+                for _ in 0..400 {
+                    let mut m = 2u64;
+                    while m < lo {
+                        m *= [2u64, 2, 2, 3, 3, 5, 7, 11][rng.below(8) as usize];
+                    }
+                    if m + 1 < lim && is_prime_u64(m + 1) {
+                        found = m + 1;
+                        break;
+                    }
+                }
+                if found == 0 { rng.below(lim - 2) + 2 } else { found }
             }
             _ => rng.below(lim - 2) + 2,
         };
